@@ -74,6 +74,17 @@ class TTuple(T):
         return 'Tuple[%s]' % ','.join(e.key() for e in self.elems)
 
 
+class TDict(T):
+    """dict as a total map key -> Optional[value] (absent = none)."""
+
+    def __init__(self, key, val):
+        self.k = key
+        self.v = val
+
+    def key(self):
+        return 'Dict[%s,%s]' % (self.k.key(), self.v.key())
+
+
 class TRef(T):
     """Reference to a heap object of (model) class `cls`."""
 
@@ -123,6 +134,8 @@ def sort_of(t):
         d.declare('none_' + nm)
         d.declare('some_' + nm, ('val_' + nm, sort_of(t.elem)))
         s = d.create()
+    elif isinstance(t, TDict):
+        s = z3.ArraySort(sort_of(t.k), sort_of(TOpt(t.v)))
     elif isinstance(t, TTuple):
         nm = 'T_' + _mangle(k)
         d = z3.Datatype(nm)
